@@ -28,12 +28,18 @@ class Prop(ConnProp):
     rule = ("histories of <= 40 operations on one connection: send (3 overloads, sizes from a boundary alphabet 0..65537 and up to "
             "300000, from the loop thread, a second thread, or inside a callback), scripted write results (full/short k/EAGAIN/"
             "EINTR/EPIPE/ECONNRESET), scripted short reads, peer writes, stop/startRead, shutdown, forceClose(WithDelay), peer "
-            "close, owner destruction, clock advances, loop iterations; flavours asserts-on/NDEBUG x epoll/poll; non-trivial = "
+            "close, owner destruction, clock advances, loop iterations; 22% of the histories contain a crossing block (a send "
+            "that crosses the high-water mark while the kernel takes only the head of the block - relative short write -, "
+            "optionally over an existing backlog, with a callback script on the high-water callback that sends / shuts down / "
+            "force-closes: its effect must land after the block being queued); flavours asserts-on/NDEBUG x epoll/poll; non-trivial = "
             "at least one callback ran; distinct = distinct observation traces. Plus free-running TcpServer scenarios "
             "(vlib/server_free.py: N in 0..3 io threads, 127.0.0.1 / ::1 / a long v4-mapped IPv6 listen address, kernel-chosen port, "
             "epoll/poll, 1..12 concurrent raw-socket peers, block sizes 0..200000, echo + server-initiated blocks from the io "
             "thread and two foreign threads through the three send overloads, small SO_RCVBUF/slow readers, every close cause incl. "
-            "~TcpServer with live connections), oracle only")
+            "~TcpServer with live connections; the first three scenarios of a run and every twelfth are bulk uploads: 2-3 io "
+            "threads, 2-4 raw peers that start together and each write a frame of 1-4.5 MiB which the message callback leaves in "
+            "the input buffer until complete, so that every readv of every connection spills through Buffer::readFd's "
+            "extrabuf while the other io threads do the same; per-connection content check), oracle only")
     trusted_base = TRUSTED
     assumptions = ASSUME
     oracles = [conn_oracle.stream_oracle, conn_oracle.read_oracle]
